@@ -16,6 +16,7 @@ pub enum QT {
 }
 
 impl QT {
+    #[allow(dead_code)]
     pub const ALL: [QT; 3] = [QT::Q8, QT::Q16, QT::Q32];
     /// posit width
     pub fn n(self) -> u32 {
